@@ -1,4 +1,111 @@
 import EaselModel.Core.Proto
-/-! Line-protocol driver for the C06 model (stub: answers bad-op until the model lands). -/
-open EaselModel.Proto
-def main : IO Unit := runDriver () (fun s _ => (s, "bad-op"))
+import EaselModel.Ssi.Model
+/-! Line-protocol driver for the C06 model (esl_ssi.c). Same ops and answers as harness/h_ssi.c. -/
+open EaselModel EaselModel.Proto EaselModel.Ssi
+
+structure S where
+  ns   : Option NewSsi := none
+  file : Option Bytes := none        -- the index file on disk
+  ssi  : Option Ssi := none
+
+def fnvBytes (bs : Bytes) : UInt64 :=
+  bs.foldl (fun h b => (h ^^^ b.toUInt64) * (0x100000001b3 : UInt64)) (0xcbf29ce484222325 : UInt64)
+
+def hex64 (x : UInt64) : String :=
+  let s := (Nat.toDigits 16 x.toNat)
+  String.ofList (List.replicate (16 - s.length) '0' ++ s)
+
+def stName : Option St → String
+  | none => "ok"
+  | some e => e.name
+
+def showHit (h : Hit) : String := s!"fh={h.fh} r={toSigned h.roff} d={toSigned h.doff} L={toSigned h.len}"
+
+def HEXLIMIT : Nat := 1500
+
+def step (s : S) (line : String) : S × String :=
+  let ws := words line
+  match ws with
+  | "new" :: _ => ({ s with ns := some {}, file := some [], ssi := none }, "ok")
+  | "addfile" :: _ =>
+    match s.ns, argHex? ws "name", argNat? ws "fmt" with
+    | some ns, some name, some fmt =>
+      match ns.addFile name fmt with
+      | .ok (ns, fh) => ({ s with ns := some ns }, s!"ok fh={fh}")
+      | .error e => (s, e.name)
+    | _, _, _ => (s, "bad-op")
+  | "setsubseq" :: _ =>
+    match s.ns, argNat? ws "fh", argNat? ws "bpl", argNat? ws "rpl" with
+    | some ns, some fh, some bpl, some rpl =>
+      match ns.setSubseq fh bpl rpl with
+      | .ok ns => ({ s with ns := some ns }, "ok")
+      | .error e => (s, e.name)
+    | _, _, _, _ => (s, "bad-op")
+  | "addkey" :: _ =>
+    match s.ns, argHex? ws "k", argNat? ws "fh", argNat? ws "r", argNat? ws "d", argNat? ws "L" with
+    | some ns, some k, some fh, some r, some d, some l =>
+      match ns.addKey k fh r d l with
+      | .ok ns => ({ s with ns := some ns }, "ok")
+      | .error e => (s, e.name)
+    | _, _, _, _, _, _ => (s, "bad-op")
+  | "addalias" :: _ =>
+    match s.ns, argHex? ws "a", argHex? ws "k" with
+    | some ns, some a, some k =>
+      match ns.addAlias a k with
+      | .ok ns => ({ s with ns := some ns }, "ok")
+      | .error e => (s, e.name)
+    | _, _, _ => (s, "bad-op")
+  | "external" :: _ =>
+    match s.ns with
+    | some ns => ({ s with ns := some { ns with maxRam := 0 } }, "ok")
+    | none => (s, "bad-op")
+  | "write" :: _ =>
+    match s.ns with
+    | some ns =>
+      let (_, st, file) := ns.write s.file
+      let bytes := file.getD []
+      let hx := if bytes.length ≤ HEXLIMIT then " hex=" ++ hexOrDash bytes else ""
+      ({ s with ns := none, file := file },
+       s!"{stName st} file={if file.isSome then 1 else 0} tmp=0 n={bytes.length} h={hex64 (fnvBytes bytes)}{hx}")
+    | none => (s, "bad-op")
+  | "open" :: _ =>
+    match s.file with
+    | none => ({ s with ssi := none }, "enotfound")
+    | some b =>
+      match Ssi.open b.toArray with
+      | .error e => ({ s with ssi := none }, e.name)
+      | .ok x =>
+        ({ s with ssi := some x },
+         s!"ok flags={x.flags} offsz={x.offsz} nfiles={x.nfiles} nprimary={x.nprimary} nsecondary={x.nsecondary} flen={x.flen} plen={x.plen} slen={x.slen} frec={x.frecsize} prec={x.precsize} srec={x.srecsize} foff={x.foffset} poff={x.poffset} soff={x.soffset}")
+  | "find" :: _ =>
+    match s.ssi, argHex? ws "k" with
+    | some x, some k =>
+      match x.findName k with
+      | .ok h => (s, "ok " ++ showHit h)
+      | .error e => (s, e.name)
+    | _, _ => (s, "bad-op")
+  | "findnum" :: _ =>
+    match s.ssi, argInt? ws "i" with
+    | some x, some i =>
+      match x.findNumber i with
+      | .ok (h, buf) => (s, "ok " ++ showHit h ++ " key=" ++ hexOrDash (cstr buf))
+      | .error e => (s, e.name)
+    | _, _ => (s, "bad-op")
+  | "subseq" :: _ =>
+    match s.ssi, argHex? ws "k", argInt? ws "start" with
+    | some x, some k, some st =>
+      match x.findSubseq k st with
+      | .ok r => (s, s!"ok fh={r.hit.fh} r={toSigned r.hit.roff} d={toSigned r.doff} L={toSigned r.hit.len} actual={toSigned r.actual}")
+      | .error e => (s, e.name)
+    | _, _, _ => (s, "bad-op")
+  | "fileinfo" :: _ =>
+    match s.ssi, argNat? ws "fh" with
+    | some x, some fh =>
+      match x.fileInfo fh with
+      | .ok f => (s, s!"ok name={hexOrDash (cstr f.name)} fmt={f.format} flags={f.flags} bpl={f.bpl} rpl={f.rpl}")
+      | .error e => (s, e.name)
+    | _, _ => (s, "bad-op")
+  | "close" :: _ => ({ s with ssi := none }, "ok")
+  | _ => (s, "bad-op")
+
+def main : IO Unit := runDriver ({} : S) step
